@@ -35,4 +35,6 @@ ASSUME PrintT("FORGE " \o ToJson([x |-> ForgedStanza([k |-> "X", id |-> "k", wf 
                                   e |-> ForgedStanza([k |-> "E", id |-> "k", wf |-> 0]),
                                   r |-> ForgedStanza([k |-> "R", id |-> "k", wf |-> 0]),
                                   s |-> ForgedStanza([k |-> "S", id |-> "k", wf |-> WF])]))
+ASSUME PrintT("FORGESCRYPT " \o ToJson([n \in 1..14 |-> ForgedStanza([k |-> "S", id |-> "k", wf |-> n])]))
+ASSUME PrintT("PAYLOAD " \o ToJson(Cat(<<Atom("nonce"), Stream(PayloadKey(Atom("fk"), Atom("nonce")), Atom("plaintext"))>>)))
 =============================================================================
